@@ -119,6 +119,19 @@ pub fn gen(seed: u64, _idx: u64, tier: Tier) -> Scenario {
         if r.chance(1, 20) { sc.steps.push(Step::Adv { ns: *r.pick(&[1_000_000u64, 1_100_000_000]) }); }
     }
     let _ = waiter.take();
+    if r.chance(1, 4) {
+        // the server is restarted (SAVE first: it loads its dataset from the dump and goes on appending to the same log):
+        // the log as a whole must still replay to the dataset the new process has
+        sc.steps.push(Step::Turns { n: 4 });
+        sc.steps.push(Step::Ctl { name: "restart".into(), n: 0, a: vec![] });
+        for _ in 0..r.range(1, 8) {
+            let c = r.below(nc as u64) as usize;
+            if r.chance(1, 5) { sc.steps.push(Step::Send { c, a: vec![b("SELECT"), b(&format!("{}", *r.pick(&dbs)))], split: vec![] }); }
+            let a: Vec<B> = if r.chance(1, 2) { extra_cmd(&mut r, &mut uniq) } else { data_cmd(&mut r, &mut uniq, false).into_iter().map(|x| B(String::from_utf8_lossy(&x.0).replace("@DB@", "").into_bytes())).collect() };
+            sc.steps.push(Step::Send { c, a, split: vec![] });
+            if r.chance(1, 2) { sc.steps.push(Step::Turns { n: 1 }); }
+        }
+    }
     sc.steps.push(Step::Turns { n: 4 });
     sc.steps.push(Step::Ctl { name: "checkpoint".into(), n: 1, a: vec![] });
     sc
@@ -148,7 +161,8 @@ fn parse_aof(bytes: &[u8]) -> Result<Vec<Vec<Vec<u8>>>, (usize, String)> {
 }
 
 fn live_part(s: &Snapshot) -> Vec<BTreeMap<Vec<u8>, (ferrous::verif::DumpValue, bool)>> {
-    s.iter().map(|d| d.iter().filter(|(_, e)| e.ttl_ns.map_or(true, |t| t > 0)).map(|(k, e)| (k.clone(), (e.value.clone(), e.ttl_ns.is_some()))).collect()).collect()
+    // (an entry of the expiry index whose key is gone is shown by the accessor as an empty list without deadline: not a key)
+    s.iter().map(|d| d.iter().filter(|(_, e)| !(matches!(&e.value, ferrous::verif::DumpValue::List(l) if l.is_empty()) && e.ttl_ns.is_none() && e.index_ttl_ns.is_some())).filter(|(_, e)| e.ttl_ns.map_or(true, |t| t > 0)).map(|(k, e)| (k.clone(), (e.value.clone(), e.ttl_ns.is_some()))).collect()).collect()
 }
 
 fn checkpoint(h: &mut H, history: &[Sent], final_one: bool) {
@@ -193,6 +207,12 @@ fn checkpoint(h: &mut H, history: &[Sent], final_one: bool) {
     h.dead = None;
     h.count("checkpoints", 1);
     // compare
+    if h.keep_transcript { for db in 0..16 { if !live[db].is_empty() || !replayed[db].is_empty() { h.note(format!("db{} live {:?} | replay {:?}", db, live[db], replayed[db])); } } }
+    // after a restart streams are left out: the dump does not carry a stream's last id (nor its groups), so the restarted
+    // server accepts ids the log's replay refuses - a limit of the dump (DESIGN 11.8), not of the log
+    let restarted = h.counters.get("restarts").copied().unwrap_or(0) > 0;
+    let mut live = live; let mut replayed = replayed;
+    if restarted { for db in 0..16 { let ks: Vec<Vec<u8>> = live[db].iter().chain(replayed[db].iter()).filter(|(_, (v, _))| matches!(v, ferrous::verif::DumpValue::Stream { .. })).map(|(k, _)| k.clone()).collect(); for k in ks { live[db].remove(&k); replayed[db].remove(&k); } } }
     for db in 0..16 {
         let (a, bb) = (&live[db], &replayed[db]);
         let mut diff: Option<(Vec<u8>, String)> = None;
@@ -259,6 +279,31 @@ pub fn exec(sc: &Scenario) -> Outcome {
             }
             Step::Adv { ns } => h.sim.advance(*ns),
             Step::Arm { fop, class, nth, action, .. } => { let inst = h.inst; h.sim.arm(inst, *fop, None, *class, *nth, *action); h.count("aof_write_faults_armed", 1); }
+            Step::Ctl { name, .. } if name == "restart" => {
+                for _ in 0..3 { h.turn(); }
+                let inst = h.inst;
+                // (after an injected write error the rest of the log is still in the server's write buffer: as before a
+                // checkpoint, one more logged command brings the file up to date - what a crash would lose then is not judged)
+                if h.counters.get("aof_write_faults_armed").copied().unwrap_or(0) > 0 {
+                    crate::world::g().armed.clear();
+                    let fc = h.connect(800 + h.sim.clients.len(), inst, 0);
+                    let _ = h.cmd(fc, &[b"SET".to_vec(), b"__flush__".to_vec(), b"1".to_vec()], &[]);
+                    h.sim.close(fc, CloseHow::Close);
+                }
+                let sc_conn = h.connect(860, inst, 0);
+                match h.cmd(sc_conn, &[b"SAVE".to_vec()], &[]).reply { Some(x) if x == R::ok() => {} other => { h.note(format!("SAVE before the restart -> {:?}: no restart in this run", other.map(|x| x.short()))); continue; } }
+                let ids: Vec<usize> = h.cmap.keys().copied().filter(|c| *c < 800).collect();
+                for c in ids.iter() { if let Some(i) = h.cl(*c) { h.sim.close(i, crate::sim::CloseHow::Close); } }
+                h.sim.close(sc_conn, crate::sim::CloseHow::Close);
+                h.sim.kill(inst);
+                let (cfg, dir) = (h.sim.instances[inst].cfg.clone(), h.sim.instances[inst].dir.clone());
+                match h.sim.boot(&cfg, &dir) {
+                    Ok(ni) => { h.inst = ni; for c in ids { h.connect(c, ni, 0); } }
+                    Err(e) => { h.violate("C11/restart-failed".into(), e); break; }
+                }
+                in_multi.clear(); dbsel.clear(); sha = None;
+                h.count("restarts", 1);
+            }
             Step::Ctl { name, n, .. } if name == "checkpoint" => { for _ in 0..3 { h.turn(); } checkpoint(&mut h, &history, *n == 1); }
             _ => {}
         }
@@ -270,7 +315,7 @@ pub fn exec(sc: &Scenario) -> Outcome {
 pub static DEF: CheckDef = CheckDef {
     id: "C11", level: "exploration", gen, exec,
     nontrivial: |o| o.counters.get("checkpoints").copied().unwrap_or(0) >= 1 && o.counters.get("cmds").copied().unwrap_or(0) >= 8,
-    rule: "one run = a server with appendonly on (fsync always / everysec / no) and 2-4 connections in one or two databases issuing 8-140 commands over the write-command catalogue (string, key, list, set, hash, sorted-set and stream writers incl. SPOP with and without count, ZPOPMIN/MAX, XADD with automatic ids, GETSET, SETNX, SETEX/PSETEX/PEXPIRE/PERSIST with long deadlines, SETRANGE, LSET/LTRIM/LREM, HMSET/HINCRBY, ZINCRBY, RENAME/RENAMENX, MSET, FLUSHDB/FLUSHALL, commands that fail at run time) through every execution path - directly, queued in MULTI/EXEC (or DISCARDed), through EVAL / EVALSHA of a pass-through script, as BLPOP/BRPOP that pop at once, and as blocked clients served later by another connection's push; some runs make one of the next AOF writes fail (ENOSPC, EIO, EINTR, EAGAIN) or come back short; at up to three checkpoints (always at the end) the AOF bytes on the simulated disk are parsed by the harness' own RESP reader - they must be a sequence of complete command frames - and replayed in file order into a fresh server without persistence; oracle: the canonical dataset of the replay equals the live server's (per database: keys, values, presence of a deadline); a difference is attributed to the last live command that named the differing key and its execution path; non-trivial = at least one checkpoint and 8 commands",
+    rule: "one run = a server with appendonly on (fsync always / everysec / no) and 2-4 connections in one or two databases issuing 8-140 commands over the write-command catalogue (string, key, list, set, hash, sorted-set and stream writers incl. SPOP with and without count, ZPOPMIN/MAX, XADD with automatic ids, GETSET, SETNX, SETEX/PSETEX/PEXPIRE/PERSIST with long deadlines, SETRANGE, LSET/LTRIM/LREM, HMSET/HINCRBY, ZINCRBY, RENAME/RENAMENX, MSET, FLUSHDB/FLUSHALL, commands that fail at run time) through every execution path - directly, queued in MULTI/EXEC (or DISCARDed), through EVAL / EVALSHA of a pass-through script, as BLPOP/BRPOP that pop at once, and as blocked clients served later by another connection's push; some runs make one of the next AOF writes fail (ENOSPC, EIO, EINTR, EAGAIN) or come back short; at up to three checkpoints (always at the end) the AOF bytes on the simulated disk are parsed by the harness' own RESP reader - they must be a sequence of complete command frames - and replayed in file order into a fresh server without persistence; oracle: the canonical dataset of the replay equals the live server's (per database: keys, values, presence of a deadline); a difference is attributed to the last live command that named the differing key and its execution path; in a quarter of the runs the server is restarted near the end (SAVE, kill, start from the dump, go on appending to the same log) and a few more commands follow - the log as a whole must still replay to the dataset of the new process (streams excepted); non-trivial = at least one checkpoint and 8 commands",
     quick_budget_s: 40.0, thorough_budget_s: 900.0, quick_max_runs: 1_000_000, thorough_max_runs: 100_000_000, exhaustive: false, exhaustive_after: |_| 0,
     real: REAL_WHOLE_SERVER, stub: STUB_WHOLE_SERVER, assumptions: ASSUME_COMMON,
 };
